@@ -266,7 +266,7 @@ def open_request(cfg, data, engine_id=None, strict=True, check_mac=True):
     return r
 
 
-def seal_reply(cfg, msg_id, engine_id, boots, time, scoped, flags=None, salt=None, user=None, auth=True, reportable=False):
+def seal_reply(cfg, msg_id, engine_id, boots, time, scoped, flags=None, salt=None, user=None, auth=True, reportable=False, partial_tail=0):
     """Build an agent->client v3 message carrying `scoped` (an encoded scopedPDU),
     protected according to cfg (or to explicit flags)."""
     if flags is None:
@@ -279,7 +279,13 @@ def seal_reply(cfg, msg_id, engine_id, boots, time, scoped, flags=None, salt=Non
     if flags & 2:
         salt = salt if salt is not None else b"\x00\x00\x00\x01agnt"[:8]
         kul = cfg.priv_kul(engine_id)
-        data = refber.enc_octets(refcrypto.usm_encrypt(cfg.priv, kul, boots, time, salt, scoped))
+        if partial_tail:
+            # only the whole blocks are encrypted; `partial_tail` octets that belong to no block follow
+            whole = len(scoped) - len(scoped) % 8
+            ct = refcrypto.usm_encrypt(cfg.priv, kul, boots, time, salt, scoped[:whole])[:whole] + b"\xa5" * partial_tail
+            data = refber.enc_octets(ct)
+        else:
+            data = refber.enc_octets(refcrypto.usm_encrypt(cfg.priv, kul, boots, time, salt, scoped))
         priv_params = salt
     auth_params = b"\x00" * 12 if flags & 1 else b""
     usm = refber.build_usm(engine_id, boots, time, user, auth_params, priv_params)
